@@ -7,6 +7,7 @@ observation.  No Mathlib imports.
 -/
 import Vibrato.Util.Wire
 import Vibrato.Model.Worker
+import Vibrato.Model.Worker16
 import Vibrato.Model.Mapper
 import Vibrato.Model.SpecMin
 import Vibrato.Model.DictBigram
@@ -202,7 +203,7 @@ def runDOps (fx : Fixes) : DictM → List DOp → Nat → Except String DictM
 def runWOps (fx : Fixes) (T : TokenizerM) : WorkerM → List WOp → Nat → List String → List String
   | _, [], _, acc => acc.reverse
   | w, op :: ops, i, acc =>
-    match w.step fx T op with
+    match w.step16 fx T op with
     | none => (s!"W{i} panic" :: acc).reverse
     | some (w', out) =>
       match outStr T.dict w' out with
@@ -358,7 +359,7 @@ def c02SpecPred (D : DictM) (o : TokOpts) (sent : List Nat) (ts : List ITok) : B
 /-- **C04 predicate**: the tokens read after `reset s; tokenize⁺` are those a fresh worker
 reports for `s` (compared as canonical strings against the fresh model run). -/
 def freshObs (fx : Fixes) (T : TokenizerM) (sent : List Nat) : Option String :=
-  match (WorkerM.fresh.step fx T (.reset sent)).bind (fun p => p.1.step fx T .tokenize) with
+  match (WorkerM.fresh.step16 fx T (.reset sent)).bind (fun p => p.1.step16 fx T .tokenize) with
   | none => none
   | some (w, _) => (outStr T.dict w (.tokens w.top.reverse)).bind id
 
@@ -607,6 +608,25 @@ def mapperAgree (fx : Fixes) (D0 : DictM) (dops : List DOp) : Option Bool :=
       | _ => false
   some (go D0 (toMapperDict D0) dops)
 
+/-- Are all lattices of the history exact under `u16` back pointers (`Props/C02u16.stepW_eq_step`:
+then the faithful step function used here coincides with `WorkerM.step`, the one the theorems are
+about)?  `IDX16=0` marks a case outside that hypothesis (known finding F15). -/
+def allExact (fx : Fixes) (T : TokenizerM) : WorkerM → List WOp → Bool
+  | _, [] => true
+  | w, op :: ops =>
+    WorkerM.exactOp 65536 T w op &&
+      (match w.step16 fx T op with
+       | none => true
+       | some (w', _) => allExact fx T w' ops)
+
+def idx16Flag (fx : Fixes) (D : DictM) (c : Case) : String :=
+  match runDOps fx D c.dops 0 with
+  | .ok D' =>
+    match mkTokenizer D' c.ign c.maxg with
+    | some T => if allExact fx T WorkerM.fresh c.wops then " IDX16=1" else " IDX16=0"
+    | none => ""
+  | _ => ""
+
 def handleTokP (fx : Fixes) (dicts : Dicts) (toks : List String) : String :=
   match parseCase toks with
   | none => "badinput"
@@ -618,6 +638,6 @@ def handleTokP (fx : Fixes) (dicts : Dicts) (toks : List String) : String :=
         | none => ""
         | some true => " MAPPERMODEL=1"
         | some false => " MAPPERMODEL=0"
-      modelObs fx D c.dops c.ign c.maxg c.wops ++ " P " ++ evalP fx D c ++ " " ++ evalP2 D c ++ mm
+      modelObs fx D c.dops c.ign c.maxg c.wops ++ " P " ++ evalP fx D c ++ " " ++ evalP2 D c ++ mm ++ idx16Flag fx D c
 
 end Vibrato.Driver.Tok
